@@ -48,6 +48,7 @@ import (
 type SpinCase struct {
 	Threads int        `json:"threads"` // 1..3 program threads
 	Clients [][]string `json:"clients"` // command lines per client ("yield" = runtime.Gosched)
+	NoBOE   bool       `json:"no_boe,omitempty"` // break-on-error switched off (the default of the ecal debug command line; NewECALDebugger starts with it on)
 }
 
 const spinSource = `func k(p) {
@@ -97,6 +98,9 @@ func runSpin(c Case) *hx.Failure {
 	stopCron(erp)
 	dbg := interpreter.NewECALDebugger(vs)
 	erp.Debugger = dbg
+	if sc.NoBOE {
+		dbg.BreakOnError(false)
+	}
 	vs.SetValue("spin", &spinFunc{&stop, &calls})
 
 	type thr struct {
@@ -347,7 +351,7 @@ var spinLines = func() []string {
 func drawSpin(rt *rapid.T) Case {
 	line := rapid.SampledFrom(spinLines)
 	n := rapid.IntRange(1, 2).Draw(rt, "clients")
-	sc := &SpinCase{Threads: rapid.IntRange(1, 3).Draw(rt, "threads")}
+	sc := &SpinCase{Threads: rapid.IntRange(1, 3).Draw(rt, "threads"), NoBOE: rapid.Bool().Draw(rt, "noboe")}
 	for i := 0; i < n; i++ {
 		sc.Clients = append(sc.Clients, rapid.SliceOfN(line, 1, 40).Draw(rt, "lines"))
 	}
